@@ -4347,6 +4347,12 @@ func (p *Parser) parseAlterSequence(pos token.Pos) *ast.AlterSequence {
 		options = p.parseOptions()
 	}
 
+	// The clauses are parsed in the order of the AlterSequence node (and of its SQL()).
+	var restartCounterWith *ast.RestartCounterWith
+	if p.Token.IsKeywordLike("RESTART") {
+		restartCounterWith = p.parseRestartCounterWith()
+	}
+
 	var skipRange *ast.SkipRange
 	if p.Token.IsKeywordLike("SKIP") {
 		skipRange = p.parseSkipRange()
@@ -4355,11 +4361,6 @@ func (p *Parser) parseAlterSequence(pos token.Pos) *ast.AlterSequence {
 	var noSkipRange *ast.NoSkipRange
 	if p.Token.Kind == "NO" {
 		noSkipRange = p.parseNoSkipRange()
-	}
-
-	var restartCounterWith *ast.RestartCounterWith
-	if p.Token.IsKeywordLike("RESTART") {
-		restartCounterWith = p.parseRestartCounterWith()
 	}
 
 	if options == nil && restartCounterWith == nil && skipRange == nil && noSkipRange == nil {
